@@ -215,7 +215,7 @@ EXPORT char *_stpncpy_s_chk(char *restrict dest, rsize_t dmax,
             if (*dest == '\0')
                 goto eok;
             dmax--;
-            slen++;
+            slen--;
             dest++;
             src++;
             if (unlikely(slen >= srcbos)) {
@@ -267,7 +267,7 @@ EXPORT char *_stpncpy_s_chk(char *restrict dest, rsize_t dmax,
             }
 
             dmax--;
-            slen++;
+            slen--;
             dest++;
             src++;
             if (unlikely(slen >= srcbos)) {
